@@ -36,6 +36,12 @@
      f72  a tree sent by a peer is stored only while it is requested and missing
           (treeStorage.IsRequested in handleSendTree / handleSendTreeMarshal; a pending
           description is used once and skipped when its tree is present)
+   Status in /repo: f05 f06 f07 f08 f26 f70 f72 landed; f71 is a recorded finding that is
+   not going to be repaired (Corr/C07.v code_fixed_F71 = false: the compared variant).
+
+   Not modelled: aggregating handlers and channels (treenode.go aggregate /
+   dispatchChannel) - the model's protocol has one plain handler; Overlay.Close;
+   the timers of the tree store.
 
    Abstraction: identifiers are [nat] (0 = the nil uuid); a TokenID is the tuple
    it hashes; server identities are numbers ([peer] p talks for identity p;
@@ -373,8 +379,10 @@ Definition deliver_hit (pm : pmsg) (t : stree) : M unit :=
       match search t (tk_node k) with
       | None => ret tt                                        (* No TreeNode defined in this tree here *)
       | Some _ =>
-          (* newTreeNodeInstanceFromToken *)
-          locked LInst (access TInst ;; modify (fun s => set_insts s (k :: insts s))) ;;
+          (* newTreeNodeInstanceFromToken: list the instance and, in the same critical
+             section, store the looked-up tree again (cancels a removal scheduled since
+             the look-up; sequentially it is the tree that is stored already) *)
+          locked LInst (access TInst ;; modify (fun s => set_insts s (k :: insts s)) ;; st_set t) ;;
           (* getConfig *)
           locked LConf (access TConf ;; modify (fun s => set_configs s (remove_tok k (configs s)))) ;;
           if proto_known (tk_proto k) then
